@@ -8,8 +8,14 @@
   text `sh`).  `allMatches` lists every matching cell in (database, table, row, column) order; `expected` is the view:
   error for a pattern that does not compile, else the first MaxResults elements of `allMatches`.
   Everything is parametric in the regex engine `R : Regex` (Go's `regexp`: `compile p = none` iff `p` is not valid
-  RE2 syntax; a leading `(?i)` = case-insensitive), in the scalar text `sh` (`fmt` `%v`), and for the secret scan in
-  the detectors.  The model is the code AFTER fixes search/01 and search/02 (rows walked in column order); the
+  RE2 syntax; a leading `(?i)` = case-insensitive — with Go's engine that is Unicode simple case folding: `(?i)k` also
+  matches U+212A KELVIN SIGN, `(?i)é` matches `É`; what `(?i)` means is the engine's business and is exercised against
+  the real engine by the families `search` (ASCII) and `searchuni` (non-ASCII case pairs)), in the scalar text `sh`
+  (`fmt` `%v`), and for the secret scan in the detectors (`keywords`, `fromData`; a real detector's verdict depends on
+  the whole text it is given, so every hypothesis about a detector below is about ONE text: the cell's).
+  "Case-insensitively unless asked otherwise" = the effective pattern `Spec.effPattern` (`(?i)` in front unless
+  CaseSensitive) that `C15_prefix` is stated with.  MaxResults: a positive value is a bound (`C15_bound`); 0 is the
+  documented "unlimited" and negative values behave the same (`C15_unlimited`).  The model is the code AFTER fixes search/01 and search/02 (rows walked in column order); the
   original loops, with Go's map iteration order as an explicit parameter, are `Model.SearchOrig` (finding A39).
 -/
 import PgVerif.Proofs.SearchMain
@@ -45,9 +51,14 @@ theorem C15_search_entry (R : Regex) (sh : GoVal → Bytes) (d : Dump) (o : Opts
   · simp only [search, searchInDump]
   · simp only [search]; cases R.compile _ <;> rfl
 
-/-- **Case folding.**  With CaseSensitive the pattern is compiled as given; without it, with `(?i)` in front. -/
-theorem C15_case (o : Opts) :
-    effPattern o = if o.caseSensitive then o.pattern else ciPrefix ++ o.pattern := rfl
+/-- **No limit.**  `MaxResults = 0` is the documented "unlimited" (search.go: `MaxResults int // Maximum results
+(0 = unlimited)`), and a negative value behaves the same: the result is then EVERY matching cell, in cell order.
+(So "never more than the requested maximum" is a statement about MaxResults > 0 only: `C15_bound`.) -/
+theorem C15_unlimited (R : Regex) (sh : GoVal → Bytes) (d : Dump) (o : Opts) (hmax : o.maxResults ≤ 0) (re : Bytes → Bool)
+    (hc : R.compile (effPattern o) = some re) : hits R sh d o = some (allMatches re sh o.includeRow d) := by
+  rw [C15_prefix]
+  simp only [expected, hc]
+  rw [if_neg (by omega)]
 
 /-- **Bound.**  With MaxResults > 0 never more than MaxResults hits are returned. -/
 theorem C15_bound (R : Regex) (sh : GoVal → Bytes) (d : Dump) (o : Opts) (hmax : o.maxResults > 0)
@@ -185,10 +196,18 @@ theorem C15_order_independent (cols : List Bytes) (r₁ r₂ : Row) (hp : r₁ ~
 theorem C15_matchMap_order_independent (re : Bytes → Bool) (sh : GoVal → Bytes) (m₁ m₂ : List (Bytes × GoVal))
     (hp : m₁ ~ m₂) : matchMap re sh m₁ = matchMap re sh m₂ := matchMap_perm re sh hp
 
-/-- `matchValue` decides `cellMatches`: strings nested in JSON objects and arrays, object keys, scalars through their
-text, NULL never. -/
-theorem C15_matchValue (re : Bytes → Bool) (sh : GoVal → Bytes) (v : GoVal) : matchValue re sh v = cellMatches re sh v :=
-  matchValue_eq re sh v
+/-- **When does a value match** (the property's wording, independent of the code's recursion).  `matchValue` answers
+true exactly when the pattern matches one of the value's texts `searchTexts`: the string itself for a string; for a JSON
+object one of its keys or, recursively, a text of one of its values; for an array, recursively, a text of one of its
+elements; for any other scalar its `%v` text; NULL has no text and never matches (not even the empty pattern). -/
+theorem C15_matchValue (re : Bytes → Bool) (sh : GoVal → Bytes) (v : GoVal) :
+    matchValue re sh v = true ↔ ∃ t ∈ searchTexts sh v, re t = true := by
+  rw [matchValue_eq, cellMatches_texts, List.any_eq_true]
+
+/-- the texts of a nested value: keys, strings at every depth, scalar texts; none for NULL -/
+example : searchTexts (fun _ => [63])
+    (.obj [([107], .arr [.str [97], .nil, .obj [([75], .int 5)]]), ([110], .nil)]) = [[107], [97], [75], [63], [110]] := by
+  decide
 
 /-! ### the original loops, for EVERY map iteration order -/
 
@@ -253,48 +272,81 @@ theorem C15_contains (s sub : Bytes) :
     bytesContains s sub = occursIn sub s ∧ containsIgnoreCase s sub = occursIn (lower sub) (lower s) :=
   ⟨bytesContains_eq s sub, containsIgnoreCase_eq s sub⟩
 
-/-- **Secret scan.**  Let `det` be one of the scanner's detectors and `tok` a token such that (hk) the keyword
-pre-filter lets `det` through on `tok` (one of its keywords occurs in `tok`, as is or ignoring ASCII case, or it has no
-keywords) and (hd) `det` reports the result `r` on every text that contains `tok`.  Then for every well-formed dump and
-every cell of it whose text (`%v`) has at least 8 bytes and contains `tok`, the scan reports a finding with that
-cell's database, table, row index and column, and with `r`'s detector name and raw text. -/
-theorem C15_secret (dets : List Detector) (sh : GoVal → Bytes) (det : Detector) (hdet : det ∈ dets)
-    (tok : Bytes) (r : DetResult) (hk : KeywordOccurs det tok)
-    (hd : ∀ s, occursIn tok s = true → ∃ found, det.fromData s = some found ∧ r ∈ found)
-    (d : Dump) (hw : Dump.WF d) (db tbl : Bytes) (i : Nat) (col : Bytes) (v : GoVal) (row : Row)
-    (hcell : IsCell d db tbl i col v row) (hlen : 8 ≤ (fmtV sh v).length) (hocc : occursIn tok (fmtV sh v) = true) :
+/-- **Secret scan, exactly.**  For every dump, every detector set and every scalar text, ScanDumpResult returns
+`expectedFindings`: cell by cell in (database, table, row, column) order, for each cell whose text (`%v`) has at least
+8 bytes, for each detector in order whose keyword pre-filter passes ON THAT TEXT and which does not fail, each of its
+results, tagged with the cell's database, table, column and row index.  Nothing else, nothing twice. -/
+theorem C15_secret_exact (dets : List Detector) (sh : GoVal → Bytes) (d : Dump) :
+    scanDumpResult dets sh d = expectedFindings dets sh d :=
+  scan_eq_expected dets sh d
+
+/-- **… each cell once.**  On a well-formed dump (rows are maps) the findings are, as a multiset, the findings of every
+stored binding of every row: no cell is skipped and none is scanned twice. -/
+theorem C15_secret_cells_once (dets : List Detector) (sh : GoVal → Bytes) (d : Dump) (hw : Dump.WF d) :
+    scanDumpResult dets sh d ~ allCellFindings dets sh d := by
+  rw [C15_secret_exact]
+  simp only [expectedFindings, allCellFindings]
+  apply Proofs.SearchOrig.perm_flatMap_congr; intro D hD
+  apply Proofs.SearchOrig.perm_flatMap_congr; intro t ht
+  apply Proofs.SearchOrig.perm_flatMap_congr; intro ri hri
+  have hrw : Row.WF ri.1 := wf_row_of_getElem? d hw D hD t ht ri.2 ri.1 (List.mem_zipIdx_iff_getElem?.1 hri)
+  exact (rowCells_perm t.columns ri.1 hrw).flatMap_right _
+
+/-- **A planted token is reported — what that requires.**  Take a cell of a well-formed dump whose text `fmtV sh v`
+has at least 8 bytes.  If some detector `det` of the scanner (hk) passes its keyword pre-filter on THAT text (it has no
+keywords, or one of them occurs in the cell's own text, as is or ignoring ASCII case) and (hd) reports the result `r`
+on THAT text, then the scan returns a finding with that cell's database, table, row index and column and with `r`'s
+detector name and raw text.  Nothing is assumed about any other text: a real detector's verdict depends on what
+surrounds the token (word boundaries, greedy character classes, a keyword within reach), and it is the cell's own text
+— not the column name, not a neighbouring cell — that decides (`C15_secret_needs_keyword`). -/
+theorem C15_secret (dets : List Detector) (sh : GoVal → Bytes) (d : Dump) (hw : Dump.WF d) (db tbl : Bytes) (i : Nat)
+    (col : Bytes) (v : GoVal) (row : Row) (hcell : IsCell d db tbl i col v row) (hlen : 8 ≤ (fmtV sh v).length)
+    (det : Detector) (hdet : det ∈ dets) (hk : keywordPass det (fmtV sh v) = true)
+    (found : List DetResult) (hd : det.fromData (fmtV sh v) = some found) (r : DetResult) (hr : r ∈ found) :
     ({ detector := r.detector, db := db, table := tbl, col := col, row := i, raw := r.raw } : Finding)
       ∈ scanDumpResult dets sh d := by
   obtain ⟨D, hD, rfl, t, ht, rfl, hri, hcv⟩ := hcell
   have hrw := wf_row_of_getElem? d hw D hD t ht i row hri
-  simp only [scanDumpResult, scanDatabaseDump, scanTable, List.mem_flatMap]
-  refine ⟨D, hD, t, ht, (row, i), List.mem_zipIdx_iff_getElem?.2 hri, col, ?_, ?_⟩
-  · rw [rowKeys_eq, mem_colOrder]; exact List.mem_map.2 ⟨(col, v), hcv, rfl⟩
-  · simp only [scanCell, lookup_of_mem row hrw col v hcv, Option.getD_some]
-    rw [if_neg (by omega)]
-    refine List.mem_map.2 ⟨r, ?_, rfl⟩
-    simp only [scanString, List.mem_flatMap]
-    exact ⟨det, hdet, scanWith_finds det tok r _ hk hocc (hd _ hocc)⟩
+  rw [C15_secret_exact]
+  simp only [expectedFindings, List.mem_flatMap]
+  refine ⟨D, hD, t, ht, (row, i), List.mem_zipIdx_iff_getElem?.2 hri, (col, v), (mem_rowCells t.columns row hrw (col, v)).2 hcv, ?_⟩
+  simp only [cellFindings]
+  rw [if_neg (by omega)]
+  exact List.mem_map.2 ⟨r, (mem_scanText dets _ r).2 ⟨det, hdet, hk, found, hd, hr⟩, rfl⟩
+
+/-- **The keyword must be in the cell.**  A detector that has keywords, none of which occurs in a text (neither as is
+nor ignoring ASCII case), contributes nothing for that text, whatever its `fromData` would say; so a cell on whose text
+no detector passes the pre-filter yields no finding at all.  E.g. a bare Heroku-format UUID alone in a cell is not
+reported (the Heroku detector's keyword `heroku` is not in the cell), although `HEROKU_API_KEY=<uuid>` in one cell is. -/
+theorem C15_secret_needs_keyword (dets : List Detector) (sh : GoVal → Bytes) (db tbl : Bytes) (i : Nat) (cv : Bytes × GoVal)
+    (h : ∀ det ∈ dets, keywordPass det (fmtV sh cv.2) = false) : cellFindings dets sh db tbl i cv = [] := by
+  simp only [cellFindings]
+  have : scanText dets (fmtV sh cv.2) = [] := by
+    simp only [scanText, List.flatMap_eq_nil_iff]
+    intro det hdet
+    rw [h det hdet]; rfl
+  rw [this]; simp
 
 /-- **Coordinates of findings are real.**  Every finding of the scan names a cell of the dump whose text has at least
-8 bytes and on which the scanner's `ScanString` produced that result. -/
+8 bytes, and comes from a detector of the scanner that passed its pre-filter on that cell's text and reported that
+result on it. -/
 theorem C15_secret_sound (dets : List Detector) (sh : GoVal → Bytes) (d : Dump) (hw : Dump.WF d) (f : Finding)
     (hf : f ∈ scanDumpResult dets sh d) :
     ∃ v row, IsCell d f.db f.table f.row f.col v row ∧ 8 ≤ (fmtV sh v).length ∧
-      (⟨f.detector, f.raw⟩ : DetResult) ∈ scanString dets (fmtV sh v) := by
-  simp only [scanDumpResult, scanDatabaseDump, scanTable, List.mem_flatMap] at hf
-  obtain ⟨D, hD, t, ht, ri, hri, col, hcol, hcell⟩ := hf
+      ∃ det ∈ dets, keywordPass det (fmtV sh v) = true ∧ ∃ found, det.fromData (fmtV sh v) = some found ∧
+        (⟨f.detector, f.raw⟩ : DetResult) ∈ found := by
+  rw [C15_secret_exact] at hf
+  simp only [expectedFindings, List.mem_flatMap] at hf
+  obtain ⟨D, hD, t, ht, ri, hri, cv, hcv, hcell⟩ := hf
   have hri' := List.mem_zipIdx_iff_getElem?.1 hri
   have hrw := wf_row_of_getElem? d hw D hD t ht ri.2 ri.1 hri'
-  rw [rowKeys_eq, mem_colOrder] at hcol
-  obtain ⟨⟨c, v⟩, hcv, hc⟩ := List.mem_map.1 hcol
-  simp only at hc; subst hc
-  simp only [scanCell, lookup_of_mem ri.1 hrw c v hcv, Option.getD_some] at hcell
-  by_cases hlen : (fmtV sh v).length < 8
+  have hcv' := (mem_rowCells t.columns ri.1 hrw cv).1 hcv
+  simp only [cellFindings] at hcell
+  by_cases hlen : (fmtV sh cv.2).length < 8
   · rw [if_pos hlen] at hcell; cases hcell
   · rw [if_neg hlen] at hcell
     obtain ⟨res, hres, rfl⟩ := List.mem_map.1 hcell
-    exact ⟨v, ri.1, ⟨D, hD, rfl, t, ht, rfl, hri', hcv⟩, by omega, hres⟩
+    exact ⟨cv.2, ri.1, ⟨D, hD, rfl, t, ht, rfl, hri', hcv'⟩, by omega, (mem_scanText dets _ res).1 hres⟩
 
 /-! ### the hypotheses are satisfiable (non-vacuity) -/
 
@@ -324,13 +376,29 @@ example :
 /-- an iteration order that is not the stored one: walking every map backwards is a legitimate `π` -/
 example : ∀ r : Row, (fun r : Row => r.reverse) r ~ r := fun r => List.reverse_perm r
 
-/-- the detector hypotheses of `C15_secret` hold for the stand-in detector of the executable model
-("finds the token wherever it occurs") -/
-example (tok : Bytes) :
-    let det : Detector := { keywords := [tok.take 4], fromData := fun s => some (if occursIn tok s then [⟨[116], tok⟩] else []) }
-    KeywordOccurs det tok ∧ ∀ s, occursIn tok s = true → ∃ found, det.fromData s = some found ∧ (⟨[116], tok⟩ : DetResult) ∈ found := by
-  refine ⟨Or.inr ⟨tok.take 4, List.mem_cons_self, Or.inl ?_⟩, ?_⟩
-  · exact (occursIn_iff _ _).2 ⟨[], tok.drop 4, by simp⟩
-  · intro s hs; exact ⟨_, rfl, by simp [hs]⟩
+/-- the hypotheses of `C15_secret` are satisfiable by a detector that is NOT uniform in the surrounding text (here:
+it reports the token only when the text is exactly the token — stricter than any boundary-anchored real detector):
+keyword `glpat-`, cell text = the token `glpat-AB` -/
+example :
+    let tok : Bytes := [103, 108, 112, 97, 116, 45, 65, 66]
+    let det : Detector := { keywords := [[103, 108, 112, 97, 116, 45]],
+                            fromData := fun s => some (if s = tok then [⟨[71], tok⟩] else []) }
+    let row : Row := [([107], .str tok)]
+    let d : Dump := [{ name := [100], tables := [{ name := [116], columns := [[107]], rows := [row] }] }]
+    Dump.WF d ∧ IsCell d [100] [116] 0 [107] (.str tok) row ∧ 8 ≤ (fmtV (fun _ => []) (.str tok)).length ∧
+      keywordPass det (fmtV (fun _ => []) (.str tok)) = true ∧
+      det.fromData (fmtV (fun _ => []) (.str tok)) = some [⟨[71], tok⟩] ∧
+      det.fromData (120 :: tok) = some [] := by
+  refine ⟨?_, ⟨_, List.mem_cons_self, rfl, _, List.mem_cons_self, rfl, rfl, List.mem_cons_self⟩, by decide, by decide, by decide, by decide⟩
+  intro db hdb t ht r hr
+  simp only [List.mem_cons, List.not_mem_nil, or_false] at hdb; subst hdb
+  simp only [List.mem_cons, List.not_mem_nil, or_false] at ht; subst ht
+  simp only [List.mem_cons, List.not_mem_nil, or_false] at hr; subst hr
+  simp only [Row.WF]; decide
+
+/-- the hypothesis of `C15_secret_needs_keyword` is satisfiable: a bare UUID-shaped text and a detector keyed on `heroku` -/
+example :
+    keywordPass { keywords := [[104, 101, 114, 111, 107, 117]], fromData := fun _ => some [] }
+      [49, 50, 51, 52, 53, 54, 55, 56, 45, 49, 50, 51, 52] = false := by decide
 
 end PgVerif.Props.C15
